@@ -58,6 +58,9 @@ def write_evidence(prop, tier, seed, code, summary, meta):
         "solver_seconds": round(agg(P + B, "solver_s"), 2),
         "known_findings_reported": sorted(set(k[0]["what"] for k in summary["known_hits"])),
         "undecided": [r["id"] for r in summary["undecided"]][:50],
+        "not_decided_optional": {"count": len(summary["not_attempted"]),
+                                 "note": "seeded-random obligations neither solver decided inside its budget; the concrete sampler (>= 400 evaluations each) found no counterexample; not counted as discharged",
+                                 "examples": [(r["id"], r.get("reason")) for r in summary["not_attempted"]][:20]},
         "trusted_base": meta.get("trusted_base", []) + shims.describe(),
         "samples": samples,
         "explanation": meta.get("explanation", ""),
@@ -147,7 +150,15 @@ def main():
     sub.add_parser("selftest")
     sub.add_parser("setup")
     sub.add_parser("list")
+    py = sub.add_parser("py")
+    py.add_argument("script")
+    py.add_argument("args", nargs="*")
     a = ap.parse_args()
+    if a.cmd == "py":
+        import runpy
+        sys.argv = [a.script] + a.args
+        runpy.run_path(a.script, run_name="__main__")
+        return 0
     fn = {"check": cmd_check, "replay": cmd_replay, "selftest": cmd_selftest, "setup": cmd_setup, "list": cmd_list}.get(a.cmd)
     if fn is None:
         ap.print_help()
